@@ -158,10 +158,8 @@ func Harness_app_pipeline() {
 		ref.Rec[r.name] = hpResolve(book, r.name)
 	}
 	// ---- the log as text: two days (the second possibly on the same date)
-	dates := []string{"2021/01/01", "2021/01/02"}
-	if verifChoose("same-date", 2) == 1 {
-		dates[1] = dates[0]
-	}
+	// the two day blocks: in date order, on the same date, or the later date first
+	dates := [][]string{{"2021/01/01", "2021/01/02"}, {"2021/01/01", "2021/01/01"}, {"2021/01/02", "2021/01/01"}}[verifChoose("same-date", 3)]
 	logText := ""
 	var days []shared.Elements
 	loggable := []string{hpR0, hpR1, hpX, hpU}
@@ -259,12 +257,12 @@ func Harness_app_pipeline() {
 
 	// ---- summary DATE: the totals (positive register) and the foods of exactly that day
 	if cmd != "summary" {
-	} else if out, ok := run("summary", "summary", dates[0]); ok {
+	} else if out, ok := run("summary", "summary", "2021/01/01"); ok {
 		var names []string
 		var nums []float64
 		perDay, _ := contribs()
 		for d, raw := range days {
-			if dates[d] != dates[0] {
+			if dates[d] != "2021/01/01" {
 				continue
 			}
 			for _, t := range shared.HTotals(perDay[d]) {
